@@ -31,7 +31,8 @@ def exps(s, with_plate=False, sel=None):
 
 def one(seed):
     rnd = random.Random(seed); s = make(rnd, rnd.choice(["obs_first", "obs_last", "shuffled"])); rng = np.random.default_rng(seed)
-    ops = [("gen", R.PlatePermutationPlateGenerator()), ("gen", R.SampleSegregatingPermutationPlateGenerator(rnd.randrange(1, 5))), ("gen", R.PairwisePlateGenerator(rnd.choice([2, 3]), 0)),
+    pl_names = sorted(set(s.plate_names.tolist()))
+    ops = [("gen", R.PlatePermutationPlateGenerator()), ("gen", R.PlatePermutationPlateGenerator(pl_names[:1])), ("gen", R.PlatePermutationPlateGenerator(list(pl_names))), ("gen", R.SampleSegregatingPermutationPlateGenerator(rnd.randrange(1, 5))), ("gen", R.PairwisePlateGenerator(rnd.choice([2, 3]), 0)),
            ("smo", R.FixedSizeSmoother(rnd.randrange(1, 4))), ("smo", R.OptimalSizeSmoother()), ("smo", R.MergeMinPlateSmoother(rnd.randrange(1, 6))),
            ("smo", R.MergeTopBottomPlateSmoother(rnd.randrange(1, 3))), ("smo", R.NPlatePerCellLineSmoother(rnd.randrange(1, 3)))]
     for kind, op in ops:
@@ -79,7 +80,7 @@ def main():
         except Exception as e: r = "raised %r" % (e,)
         if r and not viol: viol.append({"seed": seed, "what": r, "site": "retrospective preparation"})
     print(json.dumps({"violations": viol, "bounded": [{"function": "all shipped generators/smoothers, both hold-out splitters",
-        "bound": "%d random screens (<=14 rows, 4 plates, 3 samples, vehicle-only rows, observed rows first/last/interleaved)" % N, "evaluations": N * 14, "distinct_nontrivial": N,
+        "bound": "%d random screens (<=14 rows, 4 plates, 3 samples, vehicle-only rows, observed rows first/last/interleaved)" % N, "evaluations": N * 16, "distinct_nontrivial": N,
         "label": "bounded stand-in, not counted as proved"}]}))
 
 
